@@ -34,6 +34,21 @@ impl BufWriter<File> {
     pub fn get_mut(&mut self) -> (r: &mut File)
         ensures *r == old(self).inner, final(self).inner == *final(r), final(self).buffered == old(self).buffered,
     { &mut self.inner }
+    // std: `impl<W: Write + Seek> Seek for BufWriter<W>`: "Seeking always writes out the internal buffer before seeking";
+    // stream_position() is seek(SeekFrom::Current(0))
+    #[verifier::external_body]
+    pub fn stream_position(&mut self) -> (r: Result<u64, IoError>)
+        ensures
+            final(self).inner.synced@ == old(self).inner.synced@,
+            final(self).logical() == old(self).logical(),
+            old(self).inner.os@.is_prefix_of(final(self).inner.os@),
+            r is Ok ==> final(self).buffered@ == Seq::<u8>::empty() && r->Ok_0 == final(self).logical().len(),
+    { unimplemented!() }
+}
+impl File {
+    // File::stream_position: the position of the descriptor; nothing is written
+    #[verifier::external_body]
+    pub fn stream_position(&mut self) -> (r: Result<u64, IoError>) ensures *final(self) == *old(self) { unimplemented!() }
 }
 pub open spec fn file_write_frame(o: BufWriter<File>, n: BufWriter<File>) -> bool {
     n.inner.synced@ == o.inner.synced@ && o.inner.os@.is_prefix_of(n.inner.os@)
